@@ -3,29 +3,47 @@
 //! lines (wait-for graph snapshot, lock poison probe) removed.  Two builds must print the same text (C18).
 //!
 //! netdump --seed <n> --n <count> --out <file>
-use harness::net::{run_with, NetGen};
+use harness::net::{history_oracles, run_with, NetGen};
 
 fn main() {
     harness::quiet_panics();
     let args: Vec<String> = std::env::args().collect();
     let (mut seed, mut n, mut out) = (1u64, 100usize, None);
+    let mut general = 0usize;
     let mut i = 1;
     while i < args.len() {
         match args[i].as_str() {
             "--seed" => { seed = args[i + 1].parse().unwrap(); i += 1 }
             "--n" => { n = args[i + 1].parse().unwrap(); i += 1 }
             "--out" => { out = Some(args[i + 1].clone()); i += 1 }
+            "--general" => { general = args[i + 1].parse().unwrap(); i += 1 }
             o => panic!("unknown argument {o}"),
         }
         i += 1;
     }
     let mut text = String::new();
     let (mut asks, mut lines) = (0u64, 0u64);
-    for k in 0..n {
+    for k in 0..(n + general) {
         let s = seed.wrapping_mul(1_000_003).wrapping_add(k as u64);
-        let mut g = NetGen::new_acyclic(s);
+        // the first n programs cannot form an ask cycle by construction; the others ("general") may, and are
+        // compared only when the build with detection saw no (justified) deadlock
+        let acyclic = k < n;
+        let mut g = if acyclic { NetGen::new_acyclic(s) } else { NetGen::new(s) };
+        g.joins = k % 3 == 2;
+        if !acyclic {
+            g.back = 12;
+        }
         let o = run_with(|n, w| g.next(n, w));
-        text.push_str(&format!("trace net-acyclic:{s}\n"));
+        text.push_str(&format!("trace net-{}:{s}\n", if acyclic { "acyclic" } else { "general" }));
+        if cfg!(feature = "deadlock") {
+            let had = o.trace.iter().any(|l| l.starts_with("N joined") && l.contains(" deadlock"));
+            let bad = history_oracles(&o.trace, acyclic);
+            match (had, bad.first()) {
+                (_, Some(b)) => text.push_str(&format!("#verdict violation {b}\n")),
+                (true, None) => text.push_str("#verdict justified-deadlock\n"),
+                (false, None) => text.push_str("#verdict cycle-free\n"),
+            }
+        }
         for l in &o.script {
             text.push_str(&format!("# {l}\n"));
         }
